@@ -7,10 +7,12 @@ import torch
 from . import common as C
 
 
-def native_check(kind, N, B, negB, k, epochs=2, seed=0, use_sched=True):
+def native_check(kind, N, B, negB, k, epochs=2, seed=0, use_sched=True, reinit=False):
     rng = np.random.default_rng(seed)
     torch.manual_seed(seed)
     st = C.make_state(kind, 2, 2, 1)
+    if reinit:
+        st.reinitialize_parameters()        # history: the state was re-initialised before training
     C.randomize(st, rng, 0.5)
     if kind == "mixed":
         st.rbm_ph.aux_bias.data.zero_()
@@ -96,7 +98,7 @@ def cases(quick):
 def replay(cfg):
     fails = []
     for (kind, N, B, nB, k) in cases(True):
-        f = native_check(kind, N, B, nB, k)
+        f = native_check(kind, N, B, nB, k) or native_check(kind, N, B, nB, k, use_sched=False, reinit=True)
         if f:
             fails.append(((kind, N, B, nB, k), f[:2]))
     return {"reproduced": bool(fails), "failed_clauses": [str(x)[:300] for x in fails[:3]]}
@@ -110,6 +112,10 @@ def bounded(tier, seed):
             n += 1
             if f:
                 bad.append(((kind, N, B, nB, k, sched), f[:2]))
+        f = native_check(kind, N, B, nB, k, seed=seed + 3, use_sched=False, reinit=True)
+        n += 1
+        if f:
+            bad.append(((kind, N, B, nB, k, "after reinitialize_parameters"), f[:2]))
     return {"driver": "drivers/C06.native_check", "label": "bounded", "evaluations": n, "failures": len(bad),
             "bound": "real fit with torch SGD (+StepLR): every step compared with theta - lr * slice of (positive - G(v_k)/|neg|), recomputed with the same RNG stream",
             "first_failures": [str(x)[:300] for x in bad[:3]]}
